@@ -1,7 +1,8 @@
 ------------------------------- MODULE Trace_Types -------------------------------
 (* C04, registry-driven leg: one ndjson line per (overload / column / clause, operand tuple) executed through the
    public API:  [id, what, declared (announced datatype name), mro (class names of the value, most specific first;
-   <<>> for NULL), exc ("" or the exception class), phase ("compile" | "run" | "render")]
+   <<>> for NULL), exc ("" or the exception class), phase ("compile" | "run" | "render"),
+   implicit (1: an operator over plain columns - no value-dependent failure exists there, any exception is a typing failure)]
    Judged: the value is NULL or an instance of the announced datatype (bool is an int, collections by kind, object
    admits anything); an accepted statement never fails with a type error on conforming data; renderers and numberify
    can format every value. *)
@@ -19,7 +20,7 @@ ConformsK(mro, declared) ==
     \/ (declared \in SetKind /\ \E i \in 1..Len(mro) : mro[i] \in SetKind)
     \/ (declared \in DictKind /\ \E i \in 1..Len(mro) : mro[i] \in DictKind)
 Verdict(c) ==
-    IF c.exc \in TypeErrors THEN "type error in an accepted statement"
+    IF c.exc \in TypeErrors \/ (c.implicit = 1 /\ c.exc # "") THEN "type error in an accepted statement"
     ELSE IF c.phase = "render" /\ c.exc # "" THEN "renderer cannot format the value"
     ELSE IF c.exc # "" THEN "ok"            \* other run-time errors (value errors of specific functions) are not typing
     ELSE IF ~ConformsK(c.mro, c.declared) THEN "value does not conform to the announced datatype"
